@@ -447,6 +447,18 @@ def spec_label(i: dict):
     return t
 
 
+def spec_cascade(tree=None) -> Cascade:
+    """the SPECIFIED verdict function in the shape of an extracted cascade: used to judge runs of the real run_test when
+    its verdict block is not recognised by the extractor (the obligation A-cascade is then inconclusive, the end-to-end
+    comparison is not)"""
+    if tree is None:
+        tree, _ = load_tree()
+    enums = enum_values(tree)
+    inputs = {k: z3.Int(f"spec_{k}") for k in ("sat", "err", "unknown", "unsat", "stuck", "normal")}
+    return Cascade(spec_exitcode(inputs, enums), spec_label(inputs), inputs, enums, {}, [], 0, 0,
+                   [v >= 0 for v in inputs.values()], "specification table", "")
+
+
 def evaluate(c: Cascade, counts: dict) -> int:
     """the extracted function applied to concrete counts (used for the predictions of part 3)"""
     subs = [(v, z3.IntVal(int(counts.get(k, 0)))) for k, v in c.inputs.items()]
